@@ -276,6 +276,23 @@ leave before its reserve + encode, and none hides them behind a branch: every ca
 theorem gen_writers_unconditional :
     writersWithReturn = ["aws_cbor_encoder_write_float"] ∧ writersWithBranch = [] := by decide
 
+/-! ## `aws_byte_buf_reserve_smart` (byte_buf.c), regenerated -/
+
+/-- after `reserve_smart(requested)` the capacity covers the request -/
+theorem gen_reserve_smart_ge (cap req : Nat) (hc : cap < 2^64) (hr : req < 2^64) : req ≤ reserveSmartCap cap req := by
+  unfold reserveSmartCap aws_max_size aws_add_size_saturating aws_add_u64_saturating
+  simp only
+  repeat' split
+  all_goals omega
+
+/-- … it never shrinks, and it is the model's growth policy (request vs twice the capacity) -/
+theorem gen_reserve_smart_model (cap len add : Nat) (hc : cap + cap < 2^64) (hr : len + add < 2^64) :
+    reserveSmartCap cap (len + add) = reserveSmart cap len add := by
+  unfold reserveSmartCap aws_max_size aws_add_size_saturating aws_add_u64_saturating reserveSmart
+  simp only
+  repeat' split
+  all_goals (try simp only [Nat.max_def]; try split) <;> omega
+
 /-- the model's `reserveLen` is the reservation of the corresponding site -/
 def modelReserve (encoder : String) : Option (Nat × Bool) :=
   if encoder = "cbor_encode_uint" then some (reserveLen (.uint 0), false)
@@ -402,7 +419,8 @@ theorem gen_accessors :
   ("s_get_encoder_current_position", "{return (encoder->encoded_buf.buffer+encoder->encoded_buf.len);}"),
   ("s_get_encoder_remaining_len", "{return (encoder->encoded_buf.capacity-encoder->encoded_buf.len);}"),
   ("aws_cbor_decoder_new", "{decoder=aws_mem_calloc(allocator,1,<UnaryExprOrTypeTraitExpr>); (decoder->allocator=allocator) (decoder->src=src) (decoder->cached_context.type=AWS_CBOR_TYPE_UNKNOWN) return decoder;}"),
-  ("aws_cbor_decoder_get_remaining_length", "{return decoder->src.len;}")] := by decide
+  ("aws_cbor_decoder_get_remaining_length", "{return decoder->src.len;}"),
+  ("aws_byte_buf_reserve_smart_relative", "{requested_capacity=0; if(__builtin_expect(!!aws_add_size_checked(buffer->len,additional_length,&requested_capacity),0)){return -1;} return aws_byte_buf_reserve_smart(buffer,requested_capacity);}")] := by decide
 
 /-- integer argument of an element, where it has one -/
 def itemArg : Item → Option Nat
